@@ -44,3 +44,12 @@ add("C16",
     "CrossHair per-condition timeout 90 s (Confirmed over all paths + refuted reachability twin); small ints passed as bool tuples; "
     "materialisation n_points 1..9, real-number model of floats, exp/log axiomatised",
     "DESIGN.md section 7 C16", technique="CrossHair (symbolic execution of Python + z3) on the constructors; symbolic execution of the JAX materialisation + z3", engine="symjax+crosshair")
+add("C01",
+    "Bounded SMT check of the real solve pipeline: get_lcm_function(model,'solve') is executed symbolically on symbolic params "
+    "for a family of model templates (continuous/discrete states and choices, filters, constraints, auxiliary functions, "
+    "period dependence, stochastic transitions with symbolic probabilities, colliding parameter names) and every entry of every "
+    "period's value array is decided equal to an independent backward-induction reference, including the -inf flag; JIT on/off. "
+    "Period t is checked as one Bellman step from an arbitrary next-period array once period t+1 has been established (induction).",
+    "real-number model of floats; template family, grid sizes (<=5, thorough 9) and horizons (<=3, thorough 4) as listed in "
+    "evidence; template preconditions = the property's 'supported model' conditions",
+    "DESIGN.md section 7 C01")
